@@ -36,6 +36,9 @@ HOST_CONFIGS = [
      {'name': 'arrayNew', 'val': {'t': 'fn', 'f': 'lib', 'name': 'arrayLength'}}],
     [{'name': 'gv', 'val': {'t': 'array', 'v': [NUM(1)]}}, {'name': 'x', 'val': {'t': 'str', 'v': A.cps('host')}},
      {'name': 'ff', 'val': {'t': 'fn', 'f': 'host', 'name': 'hostFail'}}, {'name': 'loc', 'val': NUM(3)}],
+    # the host removes library functions by binding their names to null: the name stays null, the call is undefined
+    [{'name': 'gv', 'val': NUM(0)}, {'name': 'arrayLength', 'val': {'t': 'null'}}, {'name': 'arrayNew', 'val': {'t': 'null'}},
+     {'name': 'systemGlobalGet', 'val': {'t': 'null'}}],
 ]
 
 
@@ -65,7 +68,10 @@ def rprog(rnd):
             return gen_jump.call(rnd.choice(['arrayIndexOf', 'arrayLastIndexOf']),
                                  gen_jump.call('arrayNew', *[gen_jump.num(rnd.randint(0, 3)) for _ in range(rnd.randint(0, 3))]),
                                  gen_jump.var(rnd.choice(fn)))
-        if r < 0.86:
+        if r < 0.83:
+            # in-place mutation of whatever the name holds (a "..." array, an argument array, a global)
+            return gen_jump.call('arrayPush', gen_jump.var(rnd.choice(scope)), gen_jump.num(rnd.randint(0, 3)))
+        if r < 0.88:
             return gen_jump.call(rnd.choice(['arrayLength', 'arrayNew', 'systemGlobalGet', 'systemGlobalSet']),
                                  *[rnd.choice([gen_jump.s(rnd.choice(gl)), e(d + 1, scope)]) for _ in range(rnd.randint(0, 2))])
         return {'k': 'bin', 'op': rnd.choice(['+', '<', '==', '&&', '||']), 'l': e(d + 1, scope), 'r': e(d + 1, scope)}
@@ -133,20 +139,20 @@ def run(ctx, replay=None):
     for k in range(1, n + 1):
         for ix in itertools.product(range(len(alpha)), repeat=k):
             m = [alpha[i] for i in ix]
-            for hc in (HOST_CONFIGS if k < 3 else HOST_CONFIGS[:2]):
+            for hc in (HOST_CONFIGS if k < 3 else HOST_CONFIGS[:2] + HOST_CONFIGS[4:]):
                 cases.append(make(m, hc))
     exhaustive = len(cases)
     for _ in range(ctx.pick(1200, 20000)):
         k = rnd.choice([3, 4, 5, 6])
         cases.append(make([alpha[rnd.randrange(len(alpha))] for _ in range(k)], rnd.choice(HOST_CONFIGS)))
     for _ in range(ctx.pick(2000, 30000)):
-        hc = rnd.choice(HOST_CONFIGS[:3]) + [{'name': 'g1', 'val': NUM(1)}]
+        hc = rnd.choice(HOST_CONFIGS[:3] + HOST_CONFIGS[4:]) + [{'name': 'g1', 'val': NUM(1)}]
         cases.append(make(rprog(rnd), hc, dbg=rnd.random() < 0.3))
     cases.extend(expr_shadow_cases(rnd, ctx.pick(400, 4000)))
     F.judge(ctx, 'Trace_Core', cases, c08.canaries, invariants=c08.INVS, describe=c03.describe,
             key_fields=('kind', 'model', 'expr', 'globals', 'locals'), nontrivial=lambda c: True)
     ctx.notes['exhaustive_family'] = f'{exhaustive} (statement list <= {n} over the {len(alpha)}-symbol ScopeAlphabet) x host configurations'
-    return F.finish(ctx, rule='statement lists over ScopeAlphabet x 4 host configurations (exhaustive to length n, sampled beyond), '
+    return F.finish(ctx, rule='statement lists over ScopeAlphabet x 5 host configurations (exhaustive to length n, sampled beyond), '
                     'random programs with up to 4 functions / partials / callbacks / systemGlobalGet/Set, expression-mode '
                     'shadowing cases with locals; every run validated against BareCore incl. the final globals object',
                     exhaustive=True)
